@@ -24,7 +24,18 @@ def _mk_client_od(cod):
     od = canopen.ObjectDictionary()
     recs = {}
     for e in cod:
-        if e.get("rec"):
+        if e.get("arr"):
+            # array described by its first member only: members 2..n exist implicitly
+            from canopen.objectdictionary import ODArray
+            arr = ODArray(f"Arr{e['idx']:04X}", e["idx"])
+            n0 = ODVariable("n", e["idx"], 0)
+            n0.data_type = 0x5
+            arr.add_member(n0)
+            m1 = ODVariable("first", e["idx"], 1)
+            m1.data_type = e["dt"]
+            arr.add_member(m1)
+            od.add_object(arr)
+        elif e.get("rec"):
             rec = recs.get(e["idx"])
             if rec is None:
                 rec = ODRecord(f"Rec{e['idx']:04X}", e["idx"])
@@ -42,9 +53,12 @@ def _mk_client_od(cod):
 
 def odsize_for(cod, idx, sub):
     for e in cod:
-        if e["idx"] == idx and (e["sub"] == sub or not e.get("rec")):
-            if not e.get("rec") or e["sub"] == sub:
-                return NUM_SIZE.get(e["dt"], -1)
+        if e["idx"] != idx:
+            continue
+        if e.get("arr"):
+            return NUM_SIZE.get(e["dt"], -1) if 1 <= sub <= 255 else (1 if sub == 0 else -1)
+        if e["sub"] == sub:
+            return NUM_SIZE.get(e["dt"], -1)
     return -1
 
 
@@ -75,6 +89,50 @@ def _legal_shape(q, s):
     return False
 
 
+class RealServer:
+    """The library's own SdoServer (a LocalNode on a second network) in the place of the reference
+    server: client AND server are then under test, the specification judges both."""
+
+    def __init__(self, od_entries):
+        import canopen
+        from canopen.objectdictionary import ODRecord, ODVariable
+        od = canopen.ObjectDictionary()
+        for e in od_entries:
+            if e["sub"] == 0 and not any(x["idx"] == e["idx"] and x["sub"] != 0 for x in od_entries):
+                v = ODVariable(f"V{e['idx']:04X}", e["idx"], 0)
+                od.add_object(v)
+            else:
+                if e["idx"] not in od:
+                    od.add_object(ODRecord(f"R{e['idx']:04X}", e["idx"]))
+                v = ODVariable(f"M{e['sub']}", e["idx"], e["sub"])
+                od[e["idx"]].add_member(v)
+            v.data_type = 0xF if not e["num"] else {1: 0x5, 2: 0x6, 4: 0x7, 8: 0x1B}[e["size"]]
+            v.access_type = e["acc"]
+            if e["def"] != [-1]:
+                v.default = bytes(e["def"])
+        self.out = []
+        self.net = canopen.Network()
+        self.net.bus = FakeBus(lambda msg: self.out.append(bytes(msg.data)) if msg.arbitration_id == 0x580 + NODE else None)
+        self.node = canopen.LocalNode(NODE, od)
+        self.net.add_node(self.node)
+        self._ph = "?"
+
+    def on_request(self, q):
+        self.out = []
+        self.net.notify(0x600 + NODE, bytearray(q), 0.0)
+        return list(self.out)
+
+    @property
+    def ph(self):
+        return self._ph
+
+    @ph.setter
+    def ph(self, value):
+        # the harness wants the transfer aborted on the server side: tell the server so
+        if value == "idle":
+            self.on_request(struct.pack("<BHBL", 0x80, 0, 0, 0x08000000))
+
+
 def run_case(case: dict) -> dict:
     """case: {cod, od, style, calls:[...], seed}.  Returns {"ev": [...], "od": od}."""
     import logging
@@ -85,7 +143,10 @@ def run_case(case: dict) -> dict:
 
     rng = random.Random(case.get("seed", 0))
     ev = []
-    server = RefSdoServer(case["od"], case.get("style"), rng)
+    if case.get("server") == "real":
+        server = RealServer(case["od"])
+    else:
+        server = RefSdoServer(case["od"], case.get("style"), rng)
     state = {"x": 0, "fault": None, "late": []}
     net = canopen.Network()
 
@@ -202,6 +263,8 @@ def run_case(case: dict) -> dict:
                             fp.write(chunk)
                 finally:
                     fp.close()
+                    if call.get("double_close"):
+                        fp.close()          # close() is idempotent for every file object
                 if stalled:
                     ev.append({"e": "hang", "why": "raw write() returned 0 for a non-empty chunk"})
                     continue
@@ -234,4 +297,4 @@ def run_case(case: dict) -> dict:
             deliver(fr)
     for i, e in enumerate(ev):
         e["n"] = i + 1
-    return {"ev": ev, "od": case["od"]}
+    return {"ev": ev, "od": case["od"], "realsrv": case.get("server") == "real"}
